@@ -212,8 +212,36 @@ fn stopped() -> Option<String> {
     let guard = match set_global_logger(tx) { Ok(g) => g, Err(_) => return Some("log scenario=stopped expected=logger installed actual=already set".into()) };
     let r = std::panic::catch_unwind(|| (servlin::log::info("x", ()).is_err(), log_response(Ok(Response::new(200))).is_err(),
         log_request_and_response(request("GET", "/", RequestBody::empty()), |_r| Ok(Response::new(200))).is_err()));
-    drop(guard);
-    match r { Ok((true, true, true)) => None, Ok(other) => Some(format!("log scenario=stopped expected=Err from info / log_response / wrapper actual={other:?}")), Err(_) => Some("log scenario=stopped expected=Err actual=panic".into()) }
+    // the stopped logger stays the installed one: every later call is told so too, a second logger cannot be installed
+    // next to it, and releasing it is an ordinary release
+    let again = std::panic::catch_unwind(|| (0..3).map(|_| servlin::log::info("y", ()).is_err()).collect::<Vec<bool>>());
+    let (tx2, _rx2) = sync_channel::<LogEvent>(1);
+    let second = set_global_logger(tx2).is_err();
+    let released = std::panic::catch_unwind(move || drop(guard)).is_ok();
+    match r { Ok((true, true, true)) => (), Ok(other) => return Some(format!("log scenario=stopped expected=Err from info / log_response / wrapper actual={other:?}")), Err(_) => return Some("log scenario=stopped expected=Err actual=panic".into()) }
+    match again { Ok(v) if v == [true; 3] => (), Ok(v) => return Some(format!("log scenario=stopped expected=Err from every later call as well (the stopped logger is still the installed one) actual={v:?}")), Err(_) => return Some("log scenario=stopped expected=Err from later calls actual=panic".into()) }
+    if !second { return Some("log scenario=stopped expected=a second logger refused while the first is installed actual=installed".into()); }
+    if !released { return Some("log scenario=stopped expected=the guard released without a panic actual=panic".into()); }
+    None
+}
+fn lifecycle() -> Option<String> {
+    // each call goes to the logger installed at that moment: A while A is installed (B is refused meanwhile), B after A
+    // was released and B installed; neither sees the other's events
+    let (txa, rxa) = sync_channel::<LogEvent>(8);
+    let (txb, rxb) = sync_channel::<LogEvent>(8);
+    let ga = match set_global_logger(txa) { Ok(g) => g, Err(_) => return Some("log scenario=lifecycle expected=logger installed actual=already set".into()) };
+    let r1 = servlin::log::info("one", ()).is_ok();
+    let refused = set_global_logger(txb.clone()).is_err();
+    let r2 = servlin::log::info("two", ()).is_ok();
+    if std::panic::catch_unwind(move || drop(ga)).is_err() { return Some("log scenario=lifecycle expected=guard released actual=panic".into()); }
+    let gb = match set_global_logger(txb) { Ok(g) => g, Err(_) => return Some("log scenario=lifecycle expected=B installed after A was released actual=already set".into()) };
+    let r3 = servlin::log::info("three", ()).is_ok();
+    if std::panic::catch_unwind(move || drop(gb)).is_err() { return Some("log scenario=lifecycle expected=guard released actual=panic".into()); }
+    let a: Vec<String> = drain(&rxa).iter().map(|m| get(m, "msg").unwrap_or("").to_string()).collect();
+    let b: Vec<String> = drain(&rxb).iter().map(|m| get(m, "msg").unwrap_or("").to_string()).collect();
+    if !(r1 && r2 && r3) || !refused { return Some(format!("log scenario=lifecycle expected=Ok,Ok,Ok and B refused while A is installed actual={r1},{r2},{r3} refused={refused}")); }
+    if a != ["\"one\"", "\"two\""] || b != ["\"three\""] { return Some(format!("log scenario=lifecycle expected=A:[one,two] B:[three] actual=A:{a:?} B:{b:?}")); }
+    None
 }
 fn behind() -> Option<String> {
     // a running logger that is momentarily behind (queue of 1, the consumer starts late): every call still delivers
@@ -233,14 +261,14 @@ fn main() {
     std::panic::set_hook(Box::new(|_| {}));
     let args: Vec<String> = std::env::args().collect();
     let all = ["order", "msgtag", "collision", "many", "levels", "isolation", "response-ok", "response-err", "wrapper"];
-    let run = |n: &str| -> Option<String> { if n == "stopped" { stopped() } else if n == "behind" { behind() } else { match std::panic::catch_unwind(|| scenario(n)) { Ok(v) => v, Err(_) => Some(format!("log scenario={n} expected=no-panic actual=panic")) } } };
+    let run = |n: &str| -> Option<String> { if n == "stopped" { stopped() } else if n == "lifecycle" { lifecycle() } else if n == "behind" { behind() } else { match std::panic::catch_unwind(|| scenario(n)) { Ok(v) => v, Err(_) => Some(format!("log scenario={n} expected=no-panic actual=panic")) } } };
     if args.len() >= 3 && args[1] == "replay" {
         let w = args[2..].join(" ");
         let n = w.split("scenario=").nth(1).unwrap().split(' ').next().unwrap().to_string();
         match run(&n) { Some(m) => { println!("WITNESS {m}"); std::process::exit(1) } None => { println!("OK witness no longer fails"); std::process::exit(0) } }
     }
     let mut n = 0u64; let mut found = Vec::new();
-    for s in all.iter().chain(["stopped", "behind"].iter()) { n += 1; if let Some(m) = run(s) { found.push(m) } }
+    for s in all.iter().chain(["stopped", "lifecycle", "behind"].iter()) { n += 1; if let Some(m) = run(s) { found.push(m) } }
     println!("EVALUATED {n}");
     for f in &found { println!("WITNESS {f}"); }
     std::process::exit(if found.is_empty() { 0 } else { 1 });
